@@ -301,7 +301,10 @@ def impl_flavours(case):
         if not case["async"]:
             return impl
 
-        @async_run_until_complete
+        decorate = {"bare": async_run_until_complete, "called": async_run_until_complete(),
+                    "timeout": async_run_until_complete(timeout=30)}[case["async"] if isinstance(case["async"], str) else "bare"]
+
+        @decorate
         async def aimpl(context, n):
             return impl(context, n)
         return aimpl
@@ -419,11 +422,11 @@ def suites(tier, seed):
     FL = ["pass", "fail", "convbad", "convok", "error"]
     for n in range(1, 4 if thorough else 3):
         for seq in itertools.product(FL, repeat=n):
-            for asyn in (False, True):
+            for asyn in (False, "bare", "called", "timeout"):
                 fl.append({"seq": list(seq), "async": asyn, "cont": False})
     for _ in range(400 if thorough else 80):
-        fl.append({"seq": [rnd.choice(FL + ["pass"] * 3) for _ in range(rnd.randint(3, 7))], "async": rnd.random() < 0.5, "cont": rnd.random() < 0.3})
+        fl.append({"seq": [rnd.choice(FL + ["pass"] * 3) for _ in range(rnd.randint(3, 7))], "async": rnd.choice([False, False, "bare", "called", "timeout"]), "cont": rnd.random() < 0.3})
     flavours = {"name": "flavours", "cases": fl, "impl": impl_flavours, "oracle": oracle_flavours, "exhaustive": True,
                 "nontrivial": lambda c, o: "convbad" in c["seq"],
-                "bound": "all sequences up to length %d over {pass, fail, exception, type-conversion error, converted parameter}, sync and async" % (3 if thorough else 2)}
+                "bound": "all sequences up to length %d over {pass, fail, exception, type-conversion error, converted parameter}, sync and async (decorator bare / called / called with a timeout)" % (3 if thorough else 2)}
     return [seqs, flavours]
